@@ -60,6 +60,8 @@ def main():
             if os.path.isfile(os.path.join(mdir, f)) and os.path.getsize(os.path.join(mdir, f)) < 2_000_000:
                 shutil.copy(os.path.join(mdir, f), dest)
         # run the checks against the mutant in /repo
+        import fcntl
+        lockf = open("/tmp/harvest.repo.lock", "w"); fcntl.flock(lockf, fcntl.LOCK_EX)  # one change at a time in /repo
         st = subprocess.run(["git", "-C", "/repo", "status", "--porcelain"], stdout=subprocess.PIPE).stdout.decode().strip()
         if st:
             print("/repo is not clean, refusing to apply:", st); sys.exit(2)
@@ -79,6 +81,7 @@ def main():
                 subprocess.run(["git", "-C", "/repo", "checkout", "--", "."])
         else:
             results["apply_to_repo"] = out[-300:]
+        fcntl.flock(lockf, fcntl.LOCK_UN); lockf.close()
         rec["checks_run"] = results
         rec["what_i_ran"] = "tools/harvest.py: git apply in scratch worktree, cargo build --features client, cargo test --workspace --offline, demo with/without patch; then git -C /repo apply, ./check <id> --tier quick, git -C /repo checkout -- ."
         json.dump(rec, open(os.path.join(dest, "meta.json"), "w"), indent=1)
